@@ -121,7 +121,7 @@ def main():
         info = eg.convert(eg.run_many(definition, [data], worker, tmpd, chooser=chooser))
         d = {"kind": kind, "n": n, "MaxConcurrency": mc, "finish_priority": perm, "shape": shape, "definition": definition, "input": data}
         fin, lau, final, mx = observe(info, n, kind)
-        d.update(finishes=fin, launches=lau, output=final, max_in_flight=mx, status=info.status)
+        d.update(finishes=fin, launches=lau, output=final, max_in_flight=mx, status=info.status, exception=info.exception)
         info.world = None
         if final is None or info.status != "quiescent":
             not_ended.append(d)
@@ -154,7 +154,8 @@ def main():
     shutil.rmtree(tmpd, ignore_errors=True)
 
     for d in not_ended[:3]:
-        ck.violation("a fan-out execution did not end SUCCEEDED with an array: %s" % json.dumps({k: d[k] for k in ("kind", "n", "MaxConcurrency", "finish_priority", "status", "output")}), {"case": d})
+        ck.violation("a fan-out execution did not end SUCCEEDED with an array%s: %s" % ((" (an engine callback raised %s)" % d["exception"]["error"]) if d.get("exception") else "",
+                     json.dumps({k: d[k] for k in ("kind", "n", "MaxConcurrency", "finish_priority", "finishes", "launches", "status", "output")})), {"case": d})
     funcs = ["c05_model_ok", "c05_positions_ok", "c05_once_ok", "c05_bound_ok"]
     what = {"c05_model_ok": "the observed launches/finishes/join are not a run of the join model (Model/Join.v)",
             "c05_positions_ok": "the output array does not hold item i's output at position i",
